@@ -1,10 +1,12 @@
-import BoltonsVerif.C05.Proofs
+import BoltonsVerif.C05.Script
 import BoltonsVerif.C04.Props
 import BoltonsVerif.Generated.C05_Consts
 /-
-C05 — property theorems about `runSave cfg body plan fs0 e` (the transliterated `AtomicSaver` after
-the three `fix:` commits) for EVERY plan (any number of failing calls, at any call sites, with any
-errnos, and the destination appearing before any call), every configuration, body and initial state.
+C05 — property theorems about `runScript cfg sc plan fs0 e` (the transliterated `AtomicSaver` after
+the three `fix:` commits) for EVERY plan (any number of failing calls, at any call sites, failing with
+any errno or any other exception class - an error is an opaque number, see Model.lean -, and the
+destination appearing before any call), every configuration, every with-block `sc` (any sequence of
+write / flush / close calls on the file object, ending normally or by raising) and initial state.
 
 `out` is what the caller sees, `fin` the final machine state (`fin.fs` the file system, and the ghost
 observers `fin.published` - a rename/link onto the destination succeeded -, `fin.errs` - how many calls
@@ -14,8 +16,8 @@ reported an error -, `fin.envDone` - the environment created the destination dur
 namespace C05
 open C04
 
-abbrev out (cfg : Cfg) (body : Body) (plan : Plan) (fs0 : FS) (e : Nat) : Outcome := (runSave cfg body plan fs0 e).1
-abbrev fin (cfg : Cfg) (body : Body) (plan : Plan) (fs0 : FS) (e : Nat) : M := (runSave cfg body plan fs0 e).2
+abbrev out (cfg : Cfg) (sc : Script) (plan : Plan) (fs0 : FS) (e : Nat) : Outcome := (runScript cfg sc plan fs0 e).1
+abbrev fin (cfg : Cfg) (sc : Script) (plan : Plan) (fs0 : FS) (e : Nat) : M := (runScript cfg sc plan fs0 e).2
 
 /-- the permission bits a completed save must give the destination: explicit, else those of the
     file it replaces, else `0o666 & ~umask` -/
@@ -30,20 +32,20 @@ def expectedPerms (cfg : Cfg) (fs0 : FS) : Nat :=
     entry, same inode, hence same bytes and same permission bits - whatever failed and wherever.
     If meanwhile another process created the destination (`envDone`; only possible when it was
     absent), the destination is exactly that other process's file. -/
-theorem failed_save_preserves_dest (cfg : Cfg) (body : Body) (plan : Plan) (fs0 : FS) (e : Nat)
-    (hst : Start fs0 e) (hnp : (fin cfg body plan fs0 e).published = false) :
-    ((fin cfg body plan fs0 e).envDone = false →
-      (fin cfg body plan fs0 e).fs.readDest = fs0.readDest ∧ (fin cfg body plan fs0 e).fs.destMode = fs0.destMode) ∧
-    ((fin cfg body plan fs0 e).envDone = true →
-      fs0.dir.dest = none ∧ (fin cfg body plan fs0 e).fs.readDest = some envBytes ∧
-      (fin cfg body plan fs0 e).fs.destMode = some envMode) := by
-  obtain ⟨s, W, r⟩ := runSave_spec cfg fs0 e body plan
+theorem failed_save_preserves_dest (cfg : Cfg) (sc : Script) (plan : Plan) (fs0 : FS) (e : Nat)
+    (hst : Start fs0 e) (hnp : (fin cfg sc plan fs0 e).published = false) :
+    ((fin cfg sc plan fs0 e).envDone = false →
+      (fin cfg sc plan fs0 e).fs.readDest = fs0.readDest ∧ (fin cfg sc plan fs0 e).fs.destMode = fs0.destMode) ∧
+    ((fin cfg sc plan fs0 e).envDone = true →
+      fs0.dir.dest = none ∧ (fin cfg sc plan fs0 e).fs.readDest = some envBytes ∧
+      (fin cfg sc plan fs0 e).fs.destMode = some envMode) := by
+  obtain ⟨s, W, r⟩ := runScript_spec cfg fs0 e sc plan
   have hd := r.j.dest (by rw [res_pub r]; exact hnp)
   constructor
   · intro he
     simp only [fin] at he
     simp only [he, Bool.false_eq_true, if_false] at hd
-    have : (fin cfg body plan fs0 e).fs.inode? (fin cfg body plan fs0 e).fs.dir.dest = fs0.inode? fs0.dir.dest := by
+    have : (fin cfg sc plan fs0 e).fs.inode? (fin cfg sc plan fs0 e).fs.dir.dest = fs0.inode? fs0.dir.dest := by
       simp only [fin, hd, FS.inode?]
       cases hdd : fs0.dir.dest with
       | none => rfl
@@ -52,7 +54,7 @@ theorem failed_save_preserves_dest (cfg : Cfg) (body : Body) (plan : Plan) (fs0 
   · intro he
     simp only [fin] at he
     simp only [he, if_true] at hd
-    have h1 : (fin cfg body plan fs0 e).fs.inode? (fin cfg body plan fs0 e).fs.dir.dest = some envInode := by
+    have h1 : (fin cfg sc plan fs0 e).fs.inode? (fin cfg sc plan fs0 e).fs.dir.dest = some envInode := by
       simp only [fin, hd, FS.inode?, r.envIno]
       rw [old_inode r.j e hst.elt, hst.eino]
     refine ⟨r.j.envd he, ?_, ?_⟩
@@ -60,28 +62,28 @@ theorem failed_save_preserves_dest (cfg : Cfg) (body : Body) (plan : Plan) (fs0 
     · simp [FS.destMode, h1, envInode]
 
 /-- the same for plans in which no other process interferes -/
-theorem failed_save_preserves_dest_noenv (cfg : Cfg) (body : Body) (plan : Plan) (fs0 : FS) (e : Nat)
-    (hst : Start fs0 e) (hne : ∀ k, plan k ≠ .appear) (hnp : (fin cfg body plan fs0 e).published = false) :
-    (fin cfg body plan fs0 e).fs.readDest = fs0.readDest ∧ (fin cfg body plan fs0 e).fs.destMode = fs0.destMode :=
-  (failed_save_preserves_dest cfg body plan fs0 e hst hnp).1 (runSave_envDone cfg body plan fs0 e hne)
+theorem failed_save_preserves_dest_noenv (cfg : Cfg) (sc : Script) (plan : Plan) (fs0 : FS) (e : Nat)
+    (hst : Start fs0 e) (hne : ∀ k, plan k ≠ .appear) (hnp : (fin cfg sc plan fs0 e).published = false) :
+    (fin cfg sc plan fs0 e).fs.readDest = fs0.readDest ∧ (fin cfg sc plan fs0 e).fs.destMode = fs0.destMode :=
+  (failed_save_preserves_dest cfg sc plan fs0 e hst hnp).1 (runScript_envDone cfg sc plan fs0 e hne)
 
 /-- **Failure is reported.**  If the caller sees no exception then the save was published, no call
     reported an error and the block did not raise.  (Contrapositive: a raising block, any failing
     call, or a missing publication reaches the caller as an exception - never a silent failure.) -/
-theorem failure_is_reported (cfg : Cfg) (body : Body) (plan : Plan) (fs0 : FS) (e : Nat)
-    (hok : out cfg body plan fs0 e = .ok) :
-    (fin cfg body plan fs0 e).published = true ∧ (fin cfg body plan fs0 e).errs = 0 ∧ body.raises = false ∧
-    (fin cfg body plan fs0 e).fs.dir.part = none := by
-  obtain ⟨s, W, r⟩ := runSave_spec cfg fs0 e body plan
+theorem failure_is_reported (cfg : Cfg) (sc : Script) (plan : Plan) (fs0 : FS) (e : Nat)
+    (hok : out cfg sc plan fs0 e = .ok) :
+    (fin cfg sc plan fs0 e).published = true ∧ (fin cfg sc plan fs0 e).errs = 0 ∧ sc.raises = false ∧
+    (fin cfg sc plan fs0 e).fs.dir.part = none := by
+  obtain ⟨s, W, r⟩ := runScript_spec cfg fs0 e sc plan
   obtain ⟨h1, h2, h3⟩ := r.ok hok
   refine ⟨by rw [← res_pub r]; simp [St.published, h1], h2, h3, ginv_part_none _ _ s _ W r.j.inv (Or.inr h1)⟩
 
 /-- with `overwrite=True` the converse also holds: an exception means nothing was published -/
-theorem raised_means_unpublished (cfg : Cfg) (body : Body) (plan : Plan) (fs0 : FS) (e : Nat)
-    (how : cfg.overwrite = true) (hne : out cfg body plan fs0 e ≠ .ok) :
-    (fin cfg body plan fs0 e).published = false := by
-  obtain ⟨s, W, r⟩ := runSave_spec cfg fs0 e body plan
-  cases hp : (fin cfg body plan fs0 e).published with
+theorem raised_means_unpublished (cfg : Cfg) (sc : Script) (plan : Plan) (fs0 : FS) (e : Nat)
+    (how : cfg.overwrite = true) (hne : out cfg sc plan fs0 e ≠ .ok) :
+    (fin cfg sc plan fs0 e).published = false := by
+  obtain ⟨s, W, r⟩ := runScript_spec cfg fs0 e sc plan
+  cases hp : (fin cfg sc plan fs0 e).published with
   | false => rfl
   | true =>
     have := (r.pub (by rw [res_pub r]; exact hp)).2.2.1
@@ -91,10 +93,10 @@ theorem raised_means_unpublished (cfg : Cfg) (body : Body) (plan : Plan) (fs0 : 
 
 /-- the only way to get an exception from a save that IS published: `overwrite=False`, the `link`
     onto the destination succeeded and a later call (the `unlink` of the part file) failed -/
-theorem raised_but_published_only_after_link (cfg : Cfg) (body : Body) (plan : Plan) (fs0 : FS) (e : Nat)
-    (hne : out cfg body plan fs0 e ≠ .ok) (hp : (fin cfg body plan fs0 e).published = true) :
-    cfg.overwrite = false ∧ Ev.linkPartDest ∈ (fin cfg body plan fs0 e).tr := by
-  obtain ⟨s, W, r⟩ := runSave_spec cfg fs0 e body plan
+theorem raised_but_published_only_after_link (cfg : Cfg) (sc : Script) (plan : Plan) (fs0 : FS) (e : Nat)
+    (hne : out cfg sc plan fs0 e ≠ .ok) (hp : (fin cfg sc plan fs0 e).published = true) :
+    cfg.overwrite = false ∧ Ev.linkPartDest ∈ (fin cfg sc plan fs0 e).tr := by
+  obtain ⟨s, W, r⟩ := runScript_spec cfg fs0 e sc plan
   obtain ⟨_, _, h3, h4, _⟩ := r.pub (by rw [res_pub r]; exact hp)
   rcases h3 with h | h
   · exact absurd h hne
@@ -102,22 +104,22 @@ theorem raised_but_published_only_after_link (cfg : Cfg) (body : Body) (plan : P
 
 /-- **Early refusal.**  `overwrite=False` and the destination exists at entry: `OSError(EEXIST)`,
     and the file system is not touched at all. -/
-theorem refused_when_dest_exists (cfg : Cfg) (body : Body) (plan : Plan) (fs0 : FS) (e : Nat)
+theorem refused_when_dest_exists (cfg : Cfg) (sc : Script) (plan : Plan) (fs0 : FS) (e : Nat)
     (hd : fs0.dir.dest ≠ none) (how : cfg.overwrite = false) :
-    out cfg body plan fs0 e = .osErr EEXIST ∧ (fin cfg body plan fs0 e).fs = fs0 := by
-  obtain ⟨s, W, r⟩ := runSave_spec cfg fs0 e body plan
+    out cfg sc plan fs0 e = .osErr EEXIST ∧ (fin cfg sc plan fs0 e).fs = fs0 := by
+  obtain ⟨s, W, r⟩ := runScript_spec cfg fs0 e sc plan
   obtain ⟨a, b, _⟩ := r.refused hd how
   exact ⟨a, b⟩
 
 /-- **Late refusal.**  `overwrite=False` and the destination appears at any point before completion:
     the caller gets an exception, nothing is published (so, by `failed_save_preserves_dest`, the
     destination is exactly the other process's file). -/
-theorem refused_when_dest_appears (cfg : Cfg) (body : Body) (plan : Plan) (fs0 : FS) (e : Nat)
-    (how : cfg.overwrite = false) (henv : (fin cfg body plan fs0 e).envDone = true) :
-    out cfg body plan fs0 e ≠ .ok ∧ (fin cfg body plan fs0 e).published = false := by
-  obtain ⟨s, W, r⟩ := runSave_spec cfg fs0 e body plan
-  have hunp : (fin cfg body plan fs0 e).published = false := by
-    cases hp : (fin cfg body plan fs0 e).published with
+theorem refused_when_dest_appears (cfg : Cfg) (sc : Script) (plan : Plan) (fs0 : FS) (e : Nat)
+    (how : cfg.overwrite = false) (henv : (fin cfg sc plan fs0 e).envDone = true) :
+    out cfg sc plan fs0 e ≠ .ok ∧ (fin cfg sc plan fs0 e).published = false := by
+  obtain ⟨s, W, r⟩ := runScript_spec cfg fs0 e sc plan
+  have hunp : (fin cfg sc plan fs0 e).published = false := by
+    cases hp : (fin cfg sc plan fs0 e).published with
     | false => rfl
     | true =>
       have hl := (r.pub (by rw [res_pub r]; exact hp)).2.2.2.1 how
@@ -126,27 +128,27 @@ theorem refused_when_dest_appears (cfg : Cfg) (body : Body) (plan : Plan) (fs0 :
       rw [henv] at this; cases this
   refine ⟨?_, hunp⟩
   intro hok
-  have := (failure_is_reported cfg body plan fs0 e hok).1
+  have := (failure_is_reported cfg sc plan fs0 e hok).1
   rw [hunp] at this; cases this
 
 /-- `__exit__` never masks the exception raised by the with-block: whatever fails during
     flush / fsync / close / cleanup, the caller sees the block's own exception -/
 theorem exit_never_masks_block_exception (cfg : Cfg) (plan : Plan) (m : M) (b : Outcome) :
-    (finish cfg plan m (some b)).1 = b := by
-  unfold finish
-  cases syncClose plan m with
+    (finishG cfg plan m (some b)).1 = b := by
+  unfold finishG
+  cases syncCloseG plan m with
   | mk r m3 => cases r <;> rfl
 
 /-- **Cleanup.**  After a failed save with `rm_part_on_exc`, unless the plan made the cleanup
     `unlink` itself fail, either no part file is left, or this save never created one (then the
     inode table is untouched and the part name is as at the start - or removed by `overwrite_part`). -/
-theorem part_removed (cfg : Cfg) (body : Body) (plan : Plan) (fs0 : FS) (e : Nat)
-    (hne : out cfg body plan fs0 e ≠ .ok) (hrm : cfg.rmPartOnExc = true)
-    (hcf : (fin cfg body plan fs0 e).cleanupFaulted = false) :
-    (fin cfg body plan fs0 e).fs.dir.part = none ∨
-    ((fin cfg body plan fs0 e).fs.inodes = fs0.inodes ∧
-      ((fin cfg body plan fs0 e).fs.dir.part = fs0.dir.part ∨ cfg.overwritePart = true)) := by
-  obtain ⟨s, W, r⟩ := runSave_spec cfg fs0 e body plan
+theorem part_removed (cfg : Cfg) (sc : Script) (plan : Plan) (fs0 : FS) (e : Nat)
+    (hne : out cfg sc plan fs0 e ≠ .ok) (hrm : cfg.rmPartOnExc = true)
+    (hcf : (fin cfg sc plan fs0 e).cleanupFaulted = false) :
+    (fin cfg sc plan fs0 e).fs.dir.part = none ∨
+    ((fin cfg sc plan fs0 e).fs.inodes = fs0.inodes ∧
+      ((fin cfg sc plan fs0 e).fs.dir.part = fs0.dir.part ∨ cfg.overwritePart = true)) := by
+  obtain ⟨s, W, r⟩ := runScript_spec cfg fs0 e sc plan
   rcases r.failed hne with ⟨h1, h2⟩ | ⟨_, h2⟩
   · right
     obtain ⟨ph, op, db, us⟩ := s
@@ -154,16 +156,16 @@ theorem part_removed (cfg : Cfg) (body : Body) (plan : Plan) (fs0 : FS) (e : Nat
     have hi := r.j.inv
     simp only [GInv] at hi
     refine ⟨hi.1, ?_⟩
-    by_cases hu : Ev.unlinkPart ∈ (fin cfg body plan fs0 e).tr
+    by_cases hu : Ev.unlinkPart ∈ (fin cfg sc plan fs0 e).tr
     · exact Or.inr (h2 hu)
     · exact Or.inl ((r.j.pinit rfl).1 hu)
   · exact Or.inl (h2 hrm hcf)
 
 /-- **A completed save holds exactly the new content**, and the block cannot have raised -/
-theorem published_content (cfg : Cfg) (body : Body) (plan : Plan) (fs0 : FS) (e : Nat)
-    (hp : (fin cfg body plan fs0 e).published = true) :
-    (fin cfg body plan fs0 e).fs.readDest = some (newContent body) ∧ body.raises = false := by
-  obtain ⟨s, W, r⟩ := runSave_spec cfg fs0 e body plan
+theorem published_content (cfg : Cfg) (sc : Script) (plan : Plan) (fs0 : FS) (e : Nat)
+    (hp : (fin cfg sc plan fs0 e).published = true) :
+    (fin cfg sc plan fs0 e).fs.readDest = some sc.content ∧ sc.raises = false := by
+  obtain ⟨s, W, r⟩ := runScript_spec cfg fs0 e sc plan
   have hsp : s.published = true := by rw [res_pub r]; exact hp
   obtain ⟨h1, h2, _⟩ := r.pub hsp
   refine ⟨?_, h1⟩
@@ -178,11 +180,11 @@ theorem published_content (cfg : Cfg) (body : Body) (plan : Plan) (fs0 : FS) (e 
 
 /-- **Permissions of a completed save**: explicit `file_perms`, else those of the replaced file,
     else `0o666 & ~umask` (no interference by another process, `os.stat` not made to claim ENOENT) -/
-theorem perms (cfg : Cfg) (body : Body) (plan : Plan) (fs0 : FS) (e : Nat)
+theorem perms (cfg : Cfg) (sc : Script) (plan : Plan) (fs0 : FS) (e : Nat)
     (hne : ∀ k, plan k ≠ .appear) (hnn : ∀ k, plan k ≠ .fail ENOENT)
-    (hp : (fin cfg body plan fs0 e).published = true) :
-    (fin cfg body plan fs0 e).fs.destMode = some (expectedPerms cfg fs0) := by
-  obtain ⟨s, W, r⟩ := runSave_spec cfg fs0 e body plan
+    (hp : (fin cfg sc plan fs0 e).published = true) :
+    (fin cfg sc plan fs0 e).fs.destMode = some (expectedPerms cfg fs0) := by
+  obtain ⟨s, W, r⟩ := runScript_spec cfg fs0 e sc plan
   have hsp : s.published = true := by rw [res_pub r]; exact hp
   obtain ⟨_, _, _, _, p, c, hm, hpc⟩ := r.pub hsp
   have hpc := hpc hne hnn
@@ -190,11 +192,11 @@ theorem perms (cfg : Cfg) (body : Body) (plan : Plan) (fs0 : FS) (e : Nat)
   obtain ⟨x, hx, _⟩ := ginv_shape _ _ s _ W r.j.inv hph
   have hmode := r.j.mode hph x hx
   rw [hm] at hmode
-  have hdest : (fin cfg body plan fs0 e).fs.dir.dest = some fs0.inodes.length := by
+  have hdest : (fin cfg sc plan fs0 e).fs.dir.dest = some fs0.inodes.length := by
     obtain ⟨ph, op, db, us⟩ := s
     have hi := r.j.inv
     cases ph <;> simp [St.published] at hsp <;> simp only [GInv] at hi <;> exact hi.1
-  have : (fin cfg body plan fs0 e).fs.destMode = some x.mode := by
+  have : (fin cfg sc plan fs0 e).fs.destMode = some x.mode := by
     simp only [fin] at hdest hx ⊢
     simp [FS.destMode, FS.inode?, hdest, hx]
   rw [this]
@@ -211,45 +213,45 @@ theorem perms (cfg : Cfg) (body : Body) (plan : Plan) (fs0 : FS) (e : Nat)
 
 /-- **Crash safety under faults**: whatever fails, the events the saver performs form a trace
     accepted by C04's `SafeTrace` (so `C04.safeTrace_crash_safe` applies to every faulty run too) -/
-theorem trace_is_safe (cfg : Cfg) (body : Body) (plan : Plan) (fs0 : FS) (e : Nat) :
-    SafeTrace (fin cfg body plan fs0 e).tr = true := by
-  obtain ⟨s, W, r⟩ := runSave_spec cfg fs0 e body plan
+theorem trace_is_safe (cfg : Cfg) (sc : Script) (plan : Plan) (fs0 : FS) (e : Nat) :
+    SafeTrace (fin cfg sc plan fs0 e).tr = true := by
+  obtain ⟨s, W, r⟩ := runScript_spec cfg fs0 e sc plan
   simp [SafeTrace, r.j.run]
 
 /-- **Retry.**  After a failed save with `rm_part_on_exc` (cleanup unlink not made to fail), started
     with the part name free (or `overwrite_part`), an immediate fault-free retry of a non-raising
-    block succeeds - provided the destination may be written (`overwrite`, or it is still absent) -
-    and leaves the complete new content and no part file. -/
-theorem retry_succeeds (cfg : Cfg) (body body2 : Body) (plan : Plan) (fs0 : FS) (e : Nat)
-    (hne : out cfg body plan fs0 e ≠ .ok) (hrm : cfg.rmPartOnExc = true)
-    (hcf : (fin cfg body plan fs0 e).cleanupFaulted = false)
+    block (one that does not close the file object itself) succeeds - provided the destination may
+    be written (`overwrite`, or it is still absent) - and leaves the complete new content and no part file. -/
+theorem retry_succeeds (cfg : Cfg) (sc sc2 : Script) (plan : Plan) (fs0 : FS) (e : Nat)
+    (hne : out cfg sc plan fs0 e ≠ .ok) (hrm : cfg.rmPartOnExc = true)
+    (hcf : (fin cfg sc plan fs0 e).cleanupFaulted = false)
     (hpart : fs0.dir.part = none ∨ cfg.overwritePart = true)
-    (hdest : (fin cfg body plan fs0 e).fs.dir.dest = none ∨ cfg.overwrite = true)
-    (hr2 : body2.raises = false) :
-    out cfg body2 noFaults (fin cfg body plan fs0 e).fs e = .ok ∧
-    (fin cfg body2 noFaults (fin cfg body plan fs0 e).fs e).fs.readDest = some (newContent body2) ∧
-    (fin cfg body2 noFaults (fin cfg body plan fs0 e).fs e).fs.dir.part = none := by
-  have hp2 : (fin cfg body plan fs0 e).fs.dir.part = none ∨ cfg.overwritePart = true := by
-    rcases part_removed cfg body plan fs0 e hne hrm hcf with h | ⟨_, h | h⟩
+    (hdest : (fin cfg sc plan fs0 e).fs.dir.dest = none ∨ cfg.overwrite = true)
+    (hr2 : sc2.raises = false) (hnc2 : noCloseOps sc2.ops = true) :
+    out cfg sc2 noFaults (fin cfg sc plan fs0 e).fs e = .ok ∧
+    (fin cfg sc2 noFaults (fin cfg sc plan fs0 e).fs e).fs.readDest = some sc2.content ∧
+    (fin cfg sc2 noFaults (fin cfg sc plan fs0 e).fs e).fs.dir.part = none := by
+  have hp2 : (fin cfg sc plan fs0 e).fs.dir.part = none ∨ cfg.overwritePart = true := by
+    rcases part_removed cfg sc plan fs0 e hne hrm hcf with h | ⟨_, h | h⟩
     · exact Or.inl h
     · rcases hpart with hp | hp
       · exact Or.inl (h.trans hp)
       · exact Or.inr hp
     · exact Or.inr h
-  have hok := runSave_nofault_ok cfg (fin cfg body plan fs0 e).fs e body2 noFaults (fun _ => rfl) hp2 hdest hr2
-  obtain ⟨h1, _, _, h4⟩ := failure_is_reported cfg body2 noFaults _ e hok
-  exact ⟨hok, (published_content cfg body2 noFaults _ e h1).1, h4⟩
+  have hok := runScript_nofault_ok cfg (fin cfg sc plan fs0 e).fs e sc2 noFaults (fun _ => rfl) hp2 hdest hr2 hnc2
+  obtain ⟨h1, _, _, h4⟩ := failure_is_reported cfg sc2 noFaults _ e hok
+  exact ⟨hok, (published_content cfg sc2 noFaults _ e h1).1, h4⟩
 
 /-- **A pre-existing part file is never reused or overwritten unless `overwrite_part` is set**: the
     save fails, records no event at all (nothing was created, removed, written or renamed), the
     part name still points to the same inode and the inode table is untouched. -/
-theorem existing_part_untouched (cfg : Cfg) (body : Body) (plan : Plan) (fs0 : FS) (e : Nat) (i : Nat)
+theorem existing_part_untouched (cfg : Cfg) (sc : Script) (plan : Plan) (fs0 : FS) (e : Nat) (i : Nat)
     (hop : cfg.overwritePart = false) (hpart : fs0.dir.part = some i) :
-    out cfg body plan fs0 e ≠ .ok ∧ (fin cfg body plan fs0 e).tr = [] ∧
-    (fin cfg body plan fs0 e).fs.dir.part = some i ∧ (fin cfg body plan fs0 e).fs.inodes = fs0.inodes := by
-  obtain ⟨s, W, r⟩ := runSave_spec cfg fs0 e body plan
-  have htr : (fin cfg body plan fs0 e).tr = [] := by
-    simp only [fin, runSave]
+    out cfg sc plan fs0 e ≠ .ok ∧ (fin cfg sc plan fs0 e).tr = [] ∧
+    (fin cfg sc plan fs0 e).fs.dir.part = some i ∧ (fin cfg sc plan fs0 e).fs.inodes = fs0.inodes := by
+  obtain ⟨s, W, r⟩ := runScript_spec cfg fs0 e sc plan
+  have htr : (fin cfg sc plan fs0 e).tr = [] := by
+    simp only [fin, runScript]
     have hs : (setup cfg plan (M.start fs0 e)).1 ≠ none ∧ (setup cfg plan (M.start fs0 e)).2.tr = [] := by
       unfold setup
       split
@@ -308,42 +310,55 @@ theorem existing_part_untouched (cfg : Cfg) (body : Body) (plan : Plan) (fs0 : F
 /-- **The two semantics agree**: when no other process interferes, the file system the saver ends
     with - whatever failed - is exactly what C04's `exec` makes of the events it recorded (a failed call
     changes nothing; a failing `close()` still closes and is recorded) -/
-theorem run_is_exec (cfg : Cfg) (body : Body) (plan : Plan) (fs0 : FS) (e : Nat) (hne : ∀ k, plan k ≠ .appear) :
-    exec fs0 (fin cfg body plan fs0 e).tr = some (fin cfg body plan fs0 e).fs :=
-  runSave_X cfg body plan fs0 e hne
+theorem run_is_exec (cfg : Cfg) (sc : Script) (plan : Plan) (fs0 : FS) (e : Nat) (hne : ∀ k, plan k ≠ .appear) :
+    exec fs0 (fin cfg sc plan fs0 e).tr = some (fin cfg sc plan fs0 e).fs :=
+  runScript_X cfg sc plan fs0 e hne
 
 /-- hence a crash at ANY point of ANY faulty run is safe: for every plan, every prefix of the events
     performed and both crash semantics, the destination reads the old state or the complete new content
     (`C04.safeTrace_crash_safe` applied to `trace_is_safe`) -/
-theorem faulty_run_crash_safe (cfg : Cfg) (body : Body) (plan : Plan) (fs0 : FS) (e : Nat)
+theorem faulty_run_crash_safe (cfg : Cfg) (sc : Script) (plan : Plan) (fs0 : FS) (e : Nat)
     (hwf : fs0.WF) (hh : fs0.hist = []) (hsy : DestSynced fs0) :
-    ∀ p q fs, (fin cfg body plan fs0 e).tr = p ++ q → exec fs0 p = some fs →
-      (fs.destAfterProcCrash = fs0.readDest ∨ fs.destAfterProcCrash = some (allWrites (fin cfg body plan fs0 e).tr)) ∧
-      (∀ r, fs.PowerDest r → r = fs0.readDest ∨ r = some (allWrites (fin cfg body plan fs0 e).tr)) ∧
+    ∀ p q fs, (fin cfg sc plan fs0 e).tr = p ++ q → exec fs0 p = some fs →
+      (fs.destAfterProcCrash = fs0.readDest ∨ fs.destAfterProcCrash = some (allWrites (fin cfg sc plan fs0 e).tr)) ∧
+      (∀ r, fs.PowerDest r → r = fs0.readDest ∨ r = some (allWrites (fin cfg sc plan fs0 e).tr)) ∧
       (publishes p = false → fs.destAfterProcCrash = fs0.readDest ∧ ∀ r, fs.PowerDest r → r = fs0.readDest) := by
   intro p q fs ht hx
-  have := safeTrace_crash_safe fs0 _ hwf hh hsy (trace_is_safe cfg body plan fs0 e) p q fs ht hx
+  have := safeTrace_crash_safe fs0 _ hwf hh hsy (trace_is_safe cfg sc plan fs0 e) p q fs ht hx
   exact ⟨this.1, this.2.1, this.2.2.1⟩
 
 /-- translator obligation (regenerated from the current source on every run): `RW_PERMS` and
     `AtomicSaver._default_file_perms` are the model's `RW_PERMS` (0o666) -/
 theorem source_default_perms : Gen.rwPerms = RW_PERMS ∧ Gen.defaultFilePerms = RW_PERMS := by decide
 
-/-- **A fault-free save with nothing in its way completes**: no exception (hence, by
+/-- **A fault-free save with nothing in its way completes** (the block may write and flush; it must
+    not close the file object itself): no exception (hence, by
     `failure_is_reported` / `published_content` / `perms`: published, new content, right mode, no part file) -/
-theorem nofault_save_completes (cfg : Cfg) (body : Body) (fs0 : FS) (e : Nat)
+theorem nofault_save_completes (cfg : Cfg) (sc : Script) (fs0 : FS) (e : Nat)
     (hpart : fs0.dir.part = none ∨ cfg.overwritePart = true)
-    (hdest : fs0.dir.dest = none ∨ cfg.overwrite = true) (hr : body.raises = false) :
-    out cfg body noFaults fs0 e = .ok :=
-  runSave_nofault_ok cfg fs0 e body noFaults (fun _ => rfl) hpart hdest hr
+    (hdest : fs0.dir.dest = none ∨ cfg.overwrite = true) (hr : sc.raises = false)
+    (hnc : noCloseOps sc.ops = true) :
+    out cfg sc noFaults fs0 e = .ok :=
+  runScript_nofault_ok cfg fs0 e sc noFaults (fun _ => rfl) hpart hdest hr hnc
 
 /-- **The fault-free runs of this model are C04's `saverTrace`**: the events recorded by `runSave`
     without faults are exactly the trace C04's theorems speak about -/
 theorem nofault_trace_is_saverTrace (cfg : Cfg) (body : Body) (fs0 : FS) (e : Nat)
     (hpart : fs0.dir.part = none ∨ cfg.overwritePart = true)
     (hdest : fs0.dir.dest = none ∨ cfg.overwrite = true) :
-    (fin cfg body noFaults fs0 e).tr = saverTrace cfg fs0 body :=
-  runSave_nofault_trace cfg fs0 e body noFaults (fun _ => rfl) hpart hdest
+    (fin cfg (Script.ofBody body) noFaults fs0 e).tr = saverTrace cfg fs0 body := by
+  simp only [fin, runScript_ofBody]
+  exact runSave_nofault_trace cfg fs0 e body noFaults (fun _ => rfl) hpart hdest
+
+/-- **The block closes the file object itself** (anywhere among its calls): whatever else happens -
+    any plan - the save is never published and the caller gets an exception: Python refuses
+    `flush()` on the closed object (`ValueError`, not an `OSError`), which `__exit__` must treat like
+    any other failure.  With `failed_save_preserves_dest`, `part_removed` and `retry_succeeds`
+    this is the full C05 guarantee for such a block. -/
+theorem closed_by_block_not_published (cfg : Cfg) (sc : Script) (plan : Plan) (fs0 : FS) (e : Nat)
+    (hcl : noCloseOps sc.ops = false) :
+    out cfg sc plan fs0 e ≠ .ok ∧ (fin cfg sc plan fs0 e).published = false :=
+  runScript_closed cfg sc plan fs0 e hcl
 
 /-! ### non-vacuity: concrete states and plans satisfying the hypotheses above -/
 
@@ -351,7 +366,7 @@ theorem nofault_trace_is_saverTrace (cfg : Cfg) (body : Body) (fs0 : FS) (e : Na
 def fsEx : FS := ⟨[⟨[79, 76, 68], [], 0o640⟩, envInode], ⟨some 0, none⟩, [], none, 0o022⟩
 /-- no destination, a stale part file -/
 def fsEx2 : FS := ⟨[⟨[9, 9], [], 0o600⟩, envInode], ⟨none, some 0⟩, [], none, 0o022⟩
-def bodyEx : Body := ⟨[([78, 69], 0), ([87], 0)], false⟩
+def bodyEx : Script := ⟨[.write [78, 69] 0, .write [87] 0], false⟩
 /-- calls of a plain save: 0 stat, 1 open, 2 fdopen, 3 chmod, 4-5 write, 6 flush, 7 fsync, 8 close, 9 rename -/
 def failAt (k : Nat) (errno : Errno) : Plan := fun n => if n = k then .fail errno else .pass
 
@@ -378,5 +393,22 @@ example : out {} bodyEx noFaults fsEx2 1 = .osErr EEXIST ∧ (fin {} bodyEx noFa
 -- (the exclusion in `raised_means_unpublished`)
 example : out { overwrite := false, overwritePart := true } bodyEx (failAt 10 1) fsEx2 1 = .osErr 1 ∧
     (fin { overwrite := false, overwritePart := true } bodyEx (failAt 10 1) fsEx2 1).published = true := by decide
+
+-- the block writes, then closes the file itself (calls: 0 stat, 1 open, 2 fdopen, 3 chmod, 4 write, 5 close, then
+-- 6 flush - refused by Python: ValueError -, 7 close, 8 unlink): reported as EVALUE, destination intact, part file
+-- removed, and the retry succeeds; the same with a block that raises afterwards: the block's exception is not masked
+def closingEx : Script := ⟨[.write [78, 69] 0, .close], false⟩
+example : noCloseOps closingEx.ops = false := by decide
+example : out {} closingEx noFaults fsEx 1 = .osErr EVALUE ∧ (fin {} closingEx noFaults fsEx 1).n = 9 ∧
+    (fin {} closingEx noFaults fsEx 1).fs.readDest = some [79, 76, 68] ∧
+    (fin {} closingEx noFaults fsEx 1).fs.dir.part = none ∧
+    out {} bodyEx noFaults (fin {} closingEx noFaults fsEx 1).fs 1 = .ok := by decide
+example : out {} { closingEx with raises := true } noFaults fsEx 1 = .bodyExc ∧
+    (fin {} { closingEx with raises := true } noFaults fsEx 1).fs.dir.part = none := by decide
+-- a failure that is not an OSError (code 1002 = MemoryError) at fsync: same guarantees
+example : out {} bodyEx (failAt 7 1002) fsEx 1 = .osErr 1002 ∧ (fin {} bodyEx (failAt 7 1002) fsEx 1).fs.dir.part = none := by decide
+-- a block that flushes in between completes
+example : out {} ⟨[.write [78] 0, .flush, .write [69] 0], false⟩ noFaults fsEx 1 = .ok ∧
+    noCloseOps [Op.write [78] 0, .flush, .write [69] 0] = true := by decide
 
 end C05
